@@ -233,6 +233,11 @@ func globalSliceInit(g *ssa.Global) ([]map[int]ssa.Value, bool) {
 			}
 		}
 	}
+	return allocSliceInit(backing)
+}
+
+// allocSliceInit: the elements of a composite literal of structs whose backing array is the given allocation.
+func allocSliceInit(backing *ssa.Alloc) ([]map[int]ssa.Value, bool) {
 	if backing == nil || backing.Referrers() == nil {
 		return nil, false
 	}
@@ -321,6 +326,63 @@ func tableField(v ssa.Value) (*ssa.Global, int, bool) {
 		return nil, 0, false
 	}
 	return g, field, true
+}
+
+// localTableField: like tableField for a table that is a composite literal local to the function
+// (table := []struct{..}{..}; for _, e := range table { use(e.k) }): returns the literal's backing array.
+func localTableField(v ssa.Value) (*ssa.Alloc, int, bool) {
+	v = stripConv(v)
+	var elem ssa.Value
+	field := -1
+	switch x := v.(type) {
+	case *ssa.Field:
+		elem, field = x.X, x.Field
+	case *ssa.UnOp:
+		if fa, ok := x.X.(*ssa.FieldAddr); ok {
+			elem, field = fa.X, fa.Field
+		}
+	}
+	if elem == nil {
+		return nil, 0, false
+	}
+	if al, ok := elem.(*ssa.Alloc); ok {
+		if sv := singleStore(al); sv != nil {
+			elem = sv
+		} else if al.Referrers() != nil {
+			var vals []ssa.Value
+			for _, r := range *al.Referrers() {
+				if st, ok := r.(*ssa.Store); ok && st.Addr == ssa.Value(al) {
+					vals = append(vals, st.Val)
+				}
+			}
+			if len(vals) == 1 {
+				elem = vals[0]
+			}
+		}
+	}
+	if u, ok := elem.(*ssa.UnOp); ok {
+		elem = u.X
+	}
+	ia, ok := elem.(*ssa.IndexAddr)
+	if !ok {
+		return nil, 0, false
+	}
+	base := ia.X
+	// the slice may pass through a phi-free local or be the literal's slice directly
+	if sl, ok := base.(*ssa.Slice); ok {
+		if al, ok := sl.X.(*ssa.Alloc); ok && sl.Low == nil && sl.High == nil {
+			if _, isArr := al.Type().Underlying().(*types.Pointer).Elem().Underlying().(*types.Array); isArr {
+				return al, field, true
+			}
+		}
+	}
+	// ranging over an array literal directly: &arr[i]
+	if al, ok := base.(*ssa.Alloc); ok {
+		if _, isArr := al.Type().Underlying().(*types.Pointer).Elem().Underlying().(*types.Array); isArr {
+			return al, field, true
+		}
+	}
+	return nil, 0, false
 }
 
 func firstParty(f *ssa.Function) bool {
@@ -506,6 +568,27 @@ func BuildFacts(c *C) *Facts {
 				if g1, nf, okN := tableField(call.Call.Args[0]); okN {
 					if g2, ef, okE := tableField(call.Call.Args[1]); okE && g1 == g2 {
 						if elems, ok := globalSliceInit(g1); ok {
+							all := true
+							for _, e := range elems {
+								en, okn := constString(e[nf])
+								ee := funcValue(e[ef])
+								if !okn || ee == nil {
+									all = false
+									continue
+								}
+								f.Executors[en] = ee
+								f.ExecNames[ee] = append(f.ExecNames[ee], en)
+								f.RegSites[en] = call.Pos()
+							}
+							if all {
+								continue
+							}
+						}
+					}
+				}
+				if a1, nf, okN := localTableField(call.Call.Args[0]); okN {
+					if a2, ef, okE := localTableField(call.Call.Args[1]); okE && a1 == a2 {
+						if elems, ok := allocSliceInit(a1); ok {
 							all := true
 							for _, e := range elems {
 								en, okn := constString(e[nf])
